@@ -216,6 +216,11 @@ func run(c *lib.Ctx) {
 					c.Violation("construct:"+z.name, fmt.Sprintf("valid schedule rejected: %v", err), caseC{Zone: z.name, Start: r.start.String(), End: r.end.String(), Mask: m})
 					continue
 				}
+				if len(schs)%2 == 1 {
+					// Every other schedule is used through a copy, as the
+					// per-client schedules and the API answers are.
+					w = w.Clone()
+				}
 				s := sch{w: w, r: r, mask: m}
 				for i := range s.days {
 					if m[i] {
@@ -465,6 +470,9 @@ func replay(c *lib.Ctx, raw json.RawMessage) string {
 	got, want := w.Contains(t), ref(t, loc, &days)
 	if got != want {
 		return fmt.Sprintf("Contains(%s local %s)=%v want %v", cs.T, t.In(loc), got, want)
+	}
+	if got = w.Clone().Contains(t); got != want {
+		return fmt.Sprintf("on a copy of the schedule (Clone): Contains(%s local %s)=%v want %v", cs.T, t.In(loc), got, want)
 	}
 	return ""
 }
